@@ -234,6 +234,11 @@ def _class(cfg):
 def schedule_plan_st(draw, tier, ctx):
     nj = draw(st.sampled_from([2, 3, 4, 7, -1]))
     cfg = draw_config(draw, ctx, gen.ALL_NP)
+    if draw(st.integers(0, 9)) == 0:
+        # training-time work that is split among workers exists only in a few places (per-arm fits, LSH hashing):
+        # aim at them, here the Thompson binarizer applied to a whole batch of a context-free bandit
+        cfg["np"] = None
+        cfg["lp"] = ["ThompsonSampling", {"binarizer": draw(gen.binarizer_st(cfg["arms"]))}]
     cfg["n_jobs"] = nj
     cfg["backend"] = draw(st.sampled_from([None, "threading", "loky"]))
     h = gen.History(draw, cfg, max_rows=8, query_rows=(2, 3, 5, 6))
@@ -349,8 +354,8 @@ def evaluate_joblib(plan, ctx):
 
 SUBCHECKS = [
     SubCheck("partition", None, evaluate_partition, 0, 0, enumerate_fn=partition_enum),
-    SubCheck("locality", locality_strategy, evaluate_locality, quick=1500, thorough=25000),
-    SubCheck("schedule", schedule_strategy, evaluate_schedule, quick=1500, thorough=25000),
+    SubCheck("locality", locality_strategy, evaluate_locality, quick=2500, thorough=30000),
+    SubCheck("schedule", schedule_strategy, evaluate_schedule, quick=3000, thorough=40000),
     SubCheck("schedule_all_orders", None, evaluate_schedule, 0, 0, enumerate_fn=schedule_enum),
     SubCheck("joblib", joblib_strategy, evaluate_joblib, quick=32, thorough=400, workers=8, quick_s=70,
              shrink=False),
